@@ -717,6 +717,10 @@ func blWantFromRef(b []byte) (w blWant) {
 
 func (j *judge) judgeBlock(w blWant) {
 	b := j.b
+	cs := 1
+	if w.rb != nil && len(w.rb.txs) >= 253 {
+		cs = 3
+	}
 	for pass := 0; pass < 2; pass++ {
 		fn := "BuildTxList"
 		if pass == 1 {
@@ -795,6 +799,21 @@ func (j *judge) judgeBlock(w blWant) {
 		}
 		if int(bl.BlockWeight) != w.bw {
 			j.fail("blockweight", fmt.Sprintf("%s: BlockWeight %d, expected %d", fn, bl.BlockWeight, w.bw))
+		}
+		// GetUserInfo sums the same sizes once more: block size without witnesses, weight of the paying transactions
+		var ui *btc.BlockUserInfo
+		g = guarded("GetUserInfo", func() { ui = bl.GetUserInfo() })
+		if j.totality("GetUserInfo", g) && ui != nil {
+			base, paid := 80+cs, 0
+			for i, sz := range w.sizes {
+				base += sz[1]
+				if i > 0 {
+					paid += 3*sz[1] + sz[0]
+				}
+			}
+			if ui.NoWitnessSize != base || int(ui.PaidTxsWeight) != paid {
+				j.fail("userinfo", fmt.Sprintf("%s: GetUserInfo NoWitnessSize %d PaidTxsWeight %d, expected %d %d", fn, ui.NoWitnessSize, ui.PaidTxsWeight, base, paid))
+			}
 		}
 	}
 }
@@ -1056,6 +1075,10 @@ func mutations(kind string, base []byte, fam string, rng *rand.Rand) (ms []mutat
 		}
 		for i := 0; i < 100; i++ {
 			add(rng.Intn(n))
+		}
+		if len(pos) > 500 { // a seeded selection: a long block has thousands of structural positions
+			rng.Shuffle(len(pos), func(i, k int) { pos[i], pos[k] = pos[k], pos[i] })
+			pos = pos[:500]
 		}
 		sort.Ints(pos)
 	}
@@ -1474,7 +1497,7 @@ func cmdReplay(args []string) {
 					continue
 				}
 				bb, err := concretise(&c, rand.New(rand.NewSource(*seed*1000003+int64(b.Li))))
-				if err != nil {
+				if err != nil || len(bb) > 100000 { // thousands of decodes per base: the very long blocks are left out here
 					continue
 				}
 				mb = append(mb, &Unit{Li: b.Li, Kind: c.T, Hex: hex.EncodeToString(bb)})
@@ -1715,9 +1738,20 @@ func randomBlock(rng *rand.Rand) []byte {
 	w := new(bytes.Buffer)
 	w.Write(rbytes(rng, 80))
 	n := 1 + rng.Intn(4)
+	big := false
+	switch rng.Intn(4) { // a decoder may batch the transactions of a block: long blocks, and a few large transactions
+	case 0:
+		n = 20 + rng.Intn(280)
+	case 1:
+		n, big = 2+rng.Intn(6), true
+	}
 	putCS(w, uint64(n))
 	for i := 0; i < n; i++ {
-		w.Write(randomTx(rng, false).ser(true))
+		t := randomTx(rng, false)
+		if big && len(t.ins) > 0 {
+			t.ins[0].script = rbytes(rng, 2000+rng.Intn(4000))
+		}
+		w.Write(t.ser(true))
 	}
 	return w.Bytes()
 }
